@@ -728,6 +728,117 @@ Section GetProofs.
         eapply gprocess_linv; [exact Eg|exact HQ0|exact Hb2|]. apply HL0, HL.
   Qed.
 
+  (* ---------- requests are distinct and never go to a local id ---------- *)
+  Record QInv (s : gst) : Prop := mkQInv {
+    qi_nodup : NoDup (g_cand s);
+    qi_cq : incl (g_cand s) (g_queued s);
+    qi_qc : incl (g_queued s) (g_cand s);
+    qi_noself : forall p, In p (g_cand s) -> ~ In p selfs_all }.
+
+  Record SInv (s : gst) : Prop := mkSInv {
+    si_q : QInv s;
+    si_sent_queried : incl (g_sent s) (g_queried s);
+    si_sent_nodup : NoDup (g_sent s);
+    si_sent_noself : forall p, In p (g_sent s) -> ~ In p selfs_all }.
+
+  Lemma gconsider_qinv s n : QInv s -> QInv (gconsider s n).
+  Proof.
+    intro H. unfold Model.Store.gconsider.
+    change (existsb (N.eqb n) (g_queried s)) with (mem n (g_queried s)).
+    change (existsb (N.eqb n) (g_queued s)) with (mem n (g_queued s)).
+    change (existsb (N.eqb n) selfs_all) with (mem n selfs_all).
+    destruct (mem n (g_queried s) || mem n (g_queued s) || mem n selfs_all) eqn:E; [exact H|].
+    destruct (N.to_nat LK_MAX_CANDIDATE_NODES <=? length (g_cand s))%nat;
+      [destruct H; constructor; assumption|].
+    apply orb_false_iff in E. destruct E as [E E3]. apply orb_false_iff in E. destruct E as [E1 E2].
+    apply mem_false in E2, E3. destruct H as [H1 H2 H3 H4].
+    constructor; cbn [g_cand g_queued].
+    - apply NoDup_snoc; [exact H1|]. intro Hin. apply E2, H2, Hin.
+    - intros y Hy. apply in_app_or in Hy. destruct Hy as [Hy|[<-|[]]]; [right; apply H2; exact Hy|left; reflexivity].
+    - intros y [<-|Hy]; apply in_or_app; [right; left; reflexivity|left; apply H3; exact Hy].
+    - intros y Hy. apply in_app_or in Hy. destruct Hy as [Hy|[<-|[]]]; [apply H4; exact Hy|exact E3].
+  Qed.
+
+  Lemma fold_gconsider_qinv l : forall s, QInv s -> QInv (fold_left gconsider l s).
+  Proof.
+    induction l as [|n l IH]; intros s H; cbn [fold_left]; [exact H|]. apply IH, gconsider_qinv, H.
+  Qed.
+
+  Lemma gafter_qinv s p : QInv s -> QInv (gafter s p).
+  Proof.
+    intro H. unfold gafter. destruct (nodes_reply p) as [|l|].
+    - destruct H; constructor; assumption.
+    - apply fold_gconsider_qinv. destruct H; constructor; assumption.
+    - destruct H; constructor; assumption.
+  Qed.
+
+  Lemma gprocess_none_qinv : forall batch s s1, gprocess s batch = (s1, None) -> QInv s -> QInv s1.
+  Proof.
+    induction batch as [|p0 batch IH]; intros s s1 H HI.
+    - inv H. exact HI.
+    - rewrite gprocess_cons in H.
+      assert (H' : gprocess (gafter s p0) batch = (s1, None)).
+      { destruct (held ss p0 key) as [v0|]; [|exact H].
+        destruct (is_fail (nodes_reply p0)); [exact H|discriminate]. }
+      apply (IH _ _ H'), gafter_qinv, HI.
+  Qed.
+
+  Lemma NoDup_app_intro {A} (l1 l2 : list A) :
+    NoDup l1 -> NoDup l2 -> (forall x, In x l1 -> ~ In x l2) -> NoDup (l1 ++ l2).
+  Proof.
+    induction l1 as [|a l1 IH]; cbn [app]; intros H1 H2 Hd; [exact H2|].
+    inv H1. constructor.
+    - intro Hin. apply in_app_or in Hin. destruct Hin as [Hin|Hin]; [contradiction|].
+      exact (Hd a (or_introl eq_refl) Hin).
+    - apply IH; [assumption|assumption|]. intros x Hx. apply Hd. right; exact Hx.
+  Qed.
+
+  Lemma gloop_sent_wf : forall fuel s, SInv s ->
+    NoDup (g_sent (fst (gloop fuel s))) /\ forall p, In p (g_sent (fst (gloop fuel s))) -> ~ In p selfs_all.
+  Proof.
+    induction fuel as [|f IH]; intros s HI; cbn [Model.Store.gloop].
+    - cbn [fst g_sent]. destruct HI; auto.
+    - destruct (g_cand s) as [|c0 cl] eqn:Ec; [cbn [fst]; destruct HI; auto|]. rewrite <- Ec.
+      destruct (gpop (g_queried s) (g_cand s) (g_queued s) []) as [[c' q'] batch] eqn:Ep.
+      pose proof (gpop_spec _ _ _ _ _ _ _ Ep) as [pre [E1 [E2 E3]]]. cbn [app] in E3.
+      destruct HI as [[Q1 Q2 Q3 Q4] S1 S2 S3]. rewrite E1 in Q1.
+      assert (Hc' : incl c' (g_cand s)) by (intros y Hy; rewrite E1; apply in_or_app; right; exact Hy).
+      assert (Hpre : incl pre (g_cand s)) by (intros y Hy; rewrite E1; apply in_or_app; left; exact Hy).
+      assert (Hb : forall x, In x batch -> In x pre /\ ~ In x (g_queried s)).
+      { intros x Hx. rewrite E3 in Hx. apply filter_In in Hx. destruct Hx as [Hx Hk].
+        split; [exact Hx|]. apply negb_true_iff in Hk. apply mem_false in Hk. exact Hk. }
+      assert (Hsent0 : NoDup (rev batch ++ g_sent s) /\ forall p, In p (rev batch ++ g_sent s) -> ~ In p selfs_all).
+      { split.
+        - apply NoDup_app_intro; [apply NoDup_rev; rewrite E3; apply NoDup_filter; eapply NoDup_app_l; exact Q1|exact S2|].
+          intros x Hx Hs. apply in_rev in Hx. destruct (Hb x Hx) as [_ Hq]. apply Hq, S1, Hs.
+        - intros x Hx. apply in_app_or in Hx. destruct Hx as [Hx|Hx]; [|apply S3, Hx].
+          apply in_rev in Hx. apply Q4, Hpre. apply (Hb x Hx). }
+      assert (HQ0 : QInv (mkG c' (g_queried s) q' (rev batch ++ g_sent s) (g_failed s) (g_cut s))).
+      { constructor; cbn [g_cand g_queued].
+        - eapply NoDup_app_r; exact Q1.
+        - intros y Hy. apply E2. split; [apply Q2, Hc', Hy|].
+          intro Hp. exact (NoDup_app_disj _ _ _ Q1 Hp Hy).
+        - intros y Hy. apply E2 in Hy. destruct Hy as [Hy Hn]. apply Q3 in Hy. rewrite E1 in Hy.
+          apply in_app_or in Hy. destruct Hy; [contradiction|assumption].
+        - intros y Hy. apply Q4, Hc', Hy. }
+      destruct batch as [|b0 bl]; [cbn [fst g_sent rev app]; auto|].
+      remember (b0 :: bl) as batch eqn:Eb.
+      match goal with |- context [Model.Store.gprocess _ _ _ _ ?st0 ?b] =>
+        set (s0 := st0) in *; pose proof (gprocess_sent b s0) as Hs;
+        destruct (gprocess s0 b) as [s2 [r|]] eqn:Eg end; cbn [fst] in Hs.
+      + subst batch. cbn [fst]. rewrite Hs. exact Hsent0.
+      + assert (Hgoal : NoDup (g_sent (fst (gloop f s2))) /\
+                        forall p, In p (g_sent (fst (gloop f s2))) -> ~ In p selfs_all).
+        { apply IH. pose proof (gprocess_none _ _ _ Eg) as [N1 _].
+          constructor.
+          - eapply gprocess_none_qinv; [exact Eg|exact HQ0].
+          - rewrite Hs, N1. subst s0. cbn [g_sent g_queried]. intros y Hy.
+            apply in_app_or in Hy. apply in_or_app. destruct Hy as [Hy|Hy]; [left; exact Hy|right; apply S1, Hy].
+          - rewrite Hs. exact (proj1 Hsent0).
+          - rewrite Hs. exact (proj2 Hsent0). }
+        subst batch. exact Hgoal.
+  Qed.
+
   (* ---------- get ---------- *)
   Definition ginit (init : list pid) : gst := mkG init selfs_marked init [] 0 false.
 
@@ -751,6 +862,27 @@ Section GetProofs.
     unfold ginit in H.
     destruct (Model.Store.gloop _ _ _ _ ss _) as [s [[v p]|]]; cbn [fst snd g_sent length] in *;
       rewrite rev_length; lia.
+  Qed.
+
+  Lemma get_requests_wf init : NoDup init -> (forall p, In p init -> ~ In p selfs_all) ->
+    NoDup (snd (fst (get init))) /\ forall p, In p (snd (fst (get init))) -> ~ In p selfs_all.
+  Proof.
+    intros Hnd Hi. unfold Model.Store.get.
+    destruct (held ss self key); [cbn [fst snd]; split; [constructor|intros p []]|].
+    fold (ginit init).
+    assert (HS : SInv (ginit init)).
+    { constructor; [constructor|..]; cbn [ginit g_cand g_queued g_sent g_queried].
+      - exact Hnd.
+      - apply incl_refl.
+      - apply incl_refl.
+      - exact Hi.
+      - intros y [].
+      - constructor.
+      - intros y []. }
+    pose proof (gloop_sent_wf (N.to_nat GET_MAX_ITERATIONS) (ginit init) HS) as [H1 H2].
+    destruct (Model.Store.gloop _ _ _ _ ss (ginit init)) as [s [[v p]|]]; cbn [fst snd] in *.
+    - split; [apply NoDup_rev, H1|]. intros q Hq. apply H2. apply in_rev in Hq. exact Hq.
+    - split; [apply NoDup_rev, H1|]. intros q Hq. apply H2. apply in_rev in Hq. exact Hq.
   Qed.
 
   (* item 4: a found value was held under this very key, before the get, by the local node
